@@ -211,7 +211,8 @@ def _run_faults(case, labels, prior):
                 return violation("fault_type_changed", "%r reached the caller instead of InjectedFault [crash index %d]" % (type(e), k), labels)
         except Exception as e:  # noqa: BLE001
             if _documented_wrapper(e):
-                labels.append("fault_reported_by=LinearOperator.check")
+                if "fault_reported_by=LinearOperator.check" not in labels:
+                    labels.append("fault_reported_by=LinearOperator.check")
             else:
                 return violation("fault_replaced:%s:%s" % (type(e).__name__, where),
                                  "the user's exception was replaced by %s: %s [crash index %d of %d]" % (type(e).__name__, str(e)[:300], k, N), labels)
@@ -610,7 +611,7 @@ def machine(holder):
 
 def tasks(tier):
     return [
-        Task("faults", strategy=scenario_st(tier), run=run_faults, examples={"quick": 1000, "thorough": 10000}),
+        Task("faults", strategy=scenario_st(tier), run=run_faults, examples={"quick": 800, "thorough": 10000}),
         Task("nesting", machine=machine, run=run_nesting, examples={"quick": 2000, "thorough": 16000},
              steps={"quick": 14, "thorough": 24}),
     ]
